@@ -25,7 +25,9 @@ func wrapperEntries() []*cat.Strat {
 	var bases []base
 	for _, e := range cat.Strats {
 		cfgs := e.Cfgs(false)
-		if len(cfgs) == 0 {
+		if len(cfgs) == 0 || e.CountKey != nil {
+			// a base strategy that is recorded as emitting a wrong number of actions breaks every wrapper
+			// around it for the same reason; wrappers are exercised over the well-behaved bases
 			continue
 		}
 		// prefer a configuration with distinct periods if there is one
